@@ -159,7 +159,8 @@ def pmap(fn, items, procs=16, today=TODAY, hooks=True, chunksize=1):
     if procs == 1:
         setup(today, hooks)
         try:
-            return [fn(x) for x in items]
+            w = _wrap(fn)
+            return [w(x) for x in items]
         finally:
             cleanup()
     ctx = mp.get_context("fork")
@@ -167,13 +168,26 @@ def pmap(fn, items, procs=16, today=TODAY, hooks=True, chunksize=1):
         return list(ex.map(_wrap(fn), items, chunksize=chunksize))
 
 
+class CaseError(Exception):
+    """a per-case function (run the implementation on one case and interpret what it did) raised: the implementation produced something the
+    harness could not interpret - on the unchanged tree this never happens (the seed sweeps), so it is reported as a violation, not as a machinery failure"""
+    def __init__(self, fn, item, tb):
+        super().__init__(fn, item, tb)
+
+
 class _wrap:
-    """picklable wrapper that cleans the per-process hook file name lazily (files live in the scratch root)"""
+    """picklable wrapper: exceptions of the per-case function are re-raised as CaseError with the case and the traceback"""
     def __init__(self, fn):
         self.fn = fn
 
     def __call__(self, x):
-        return self.fn(x)
+        try:
+            return self.fn(x)
+        except CaseError:
+            raise
+        except Exception:  # pylint:disable=broad-except
+            import traceback
+            raise CaseError(getattr(self.fn, "__name__", "case"), repr(x)[:600], traceback.format_exc()[-3000:])
 
 
 @contextlib.contextmanager
